@@ -44,7 +44,7 @@ func NewServer(rev int, script []Step) *Server {
 }
 
 func (s *Server) canParse(c *Conn) bool {
-	n := c.OutLen()
+	n := c.PeerViewLen()
 	if s.Parser.Err != nil {
 		return n > s.sunk // keeps draining what it cannot understand
 	}
@@ -62,7 +62,7 @@ func (s *Server) stepReady(c *Conn) bool {
 	if st.AfterPackets > len(s.Packets) {
 		return false
 	}
-	if st.AfterBytes > c.OutLen() {
+	if st.AfterBytes > c.PeerViewLen() {
 		return false
 	}
 	if st.Delay > 0 {
@@ -98,7 +98,7 @@ func (s *Server) Step(c *Conn) {
 		}
 		return
 	}
-	out := c.OutCopy()
+	out := c.PeerView()
 	c.ConsumeTo(len(out)) // the server process reads bytes as they arrive
 	if s.Parser.Err != nil {
 		s.sunk = len(out)
